@@ -688,9 +688,10 @@ type Origin struct {
 func (o Origin) same(p Origin) bool { return o.V == p.V && o.Index == p.Index }
 
 type provCtx struct {
-	seen  map[ssa.Value]bool
-	out   []Origin
-	depth int // remaining interprocedural (parameter -> call sites) budget; not used by default
+	depthNT int // nesting of new-type field look-throughs
+	seen    map[ssa.Value]bool
+	out     []Origin
+	depth   int // remaining interprocedural (parameter -> call sites) budget; not used by default
 }
 
 // originsOf follows a value backwards through phis, conversions, interface boxing, type assertions, slicing,
@@ -757,6 +758,32 @@ func (c *provCtx) walk(v ssa.Value, idx int) {
 					c.walk(s.Val, idx)
 				}
 				return
+			case *ssa.UnOp:
+				// *(b.ptr) where b.ptr always points at one local cell
+				if cell := cellOf(a); cell != nil {
+					sts := storesToCell(cell)
+					if len(sts) == 0 {
+						c.emit(v, idx)
+					}
+					for _, s := range sts {
+						c.walk(s.Val, idx)
+					}
+					return
+				}
+			case *ssa.FieldAddr:
+				// field of a struct type unknown to the baseline (it replaced the captured variables of a function
+				// literal): whatever was stored into that field anywhere
+				if n, st := structOf(a.X.Type()); n != nil && st != nil && isNewType(n) && c.depthNT < 3 {
+					vals := curProg.newTypeFieldStores(typeFullName(n), st.Field(a.Field).Name())
+					if len(vals) > 0 {
+						c.depthNT++
+						for _, ev := range vals {
+							c.walk(ev, idx)
+						}
+						c.depthNT--
+						return
+					}
+				}
 			case *ssa.IndexAddr:
 				// element of a local array that is only ever filled element-wise (a candidate list literal):
 				// the value may be any of the stored elements
@@ -987,7 +1014,13 @@ func freeVarCell(fv *ssa.FreeVar) *ssa.Alloc {
 func storesToCell(a *ssa.Alloc) []*ssa.Store {
 	var out []*ssa.Store
 	root := a.Parent()
-	for _, f := range withClosures(root) {
+	fns := withClosures(root)
+	if curProg != nil && len(fieldInventory) > 0 {
+		for _, m := range curProg.newTypeMethods() {
+			fns = append(fns, withClosures(m)...)
+		}
+	}
+	for _, f := range fns {
 		for _, in := range instrs(f) {
 			st, ok := in.(*ssa.Store)
 			if !ok {
@@ -1000,6 +1033,10 @@ func storesToCell(a *ssa.Alloc) []*ssa.Store {
 				}
 			case *ssa.FreeVar:
 				if freeVarCell(ad) == a {
+					out = append(out, st)
+				}
+			case *ssa.UnOp:
+				if cellOf(ad) == a {
 					out = append(out, st)
 				}
 			}
@@ -1392,4 +1429,66 @@ func localArrayElems(al *ssa.Alloc) ([]ssa.Value, bool) {
 		}
 	}
 	return vals, len(vals) > 0
+}
+
+// paramOfType returns the (last) parameter of fn whose type is typ — for anchors whose parameter order may change.
+func paramOfType(fn *ssa.Function, typ string) *ssa.Parameter {
+	var out *ssa.Parameter
+	for _, prm := range fn.Params {
+		if typeStr(prm.Type()) == typ {
+			out = prm
+		}
+	}
+	if out == nil {
+		fatalf("function %s has no parameter of type %s", fn, typ)
+	}
+	return out
+}
+
+// cellOf resolves an address to the local variable cell it denotes: the Alloc itself, a free variable bound to it, or
+// a pointer held in a field of a struct type unknown to the baseline (the captured variables of a function literal
+// that was turned into a method) when every value stored into that field is the address of one and the same cell.
+func cellOf(addr ssa.Value) *ssa.Alloc {
+	switch a := addr.(type) {
+	case *ssa.Alloc:
+		return a
+	case *ssa.FreeVar:
+		return freeVarCell(a)
+	case *ssa.UnOp:
+		if a.Op != token.MUL {
+			return nil
+		}
+		fa, ok := a.X.(*ssa.FieldAddr)
+		if !ok {
+			return nil
+		}
+		n, st := structOf(fa.X.Type())
+		if n == nil || st == nil || !isNewType(n) {
+			return nil
+		}
+		var cell *ssa.Alloc
+		for _, v := range curProg.newTypeFieldStores(typeFullName(n), st.Field(fa.Field).Name()) {
+			al, isAl := v.(*ssa.Alloc)
+			if !isAl || (cell != nil && cell != al) {
+				return nil
+			}
+			cell = al
+		}
+		return cell
+	}
+	return nil
+}
+
+// newTypeMethods lists the methods of struct types unknown to the baseline.
+func (p *Prog) newTypeMethods() []*ssa.Function {
+	var out []*ssa.Function
+	for _, f := range p.LibFuncs() {
+		if f.Signature.Recv() == nil || f.Parent() != nil {
+			continue
+		}
+		if n, _ := structOf(f.Signature.Recv().Type()); n != nil && isNewType(n) {
+			out = append(out, f)
+		}
+	}
+	return out
 }
